@@ -47,6 +47,16 @@ func selfDir() string {
 	return "/verif"
 }
 
+func envInt(k string, d int) int {
+	if v := os.Getenv(k); v != "" {
+		if n, err := strconv.Atoi(v); err == nil {
+			return n
+		}
+	}
+
+	return d
+}
+
 func envOr(k, d string) string {
 	if v := os.Getenv(k); v != "" {
 		return v
@@ -765,7 +775,9 @@ func check(id, tier string) int {
 			}
 		}
 		to := lg.QuickRuns
-		var b time.Duration
+		// the quick tier is capped in wall time too, so that a change which makes every run
+		// expensive cannot stall the check (it then reports fewer runs)
+		b := time.Duration(envInt("VERIF_QUICK_BUDGET_S", 150)) * time.Second
 		if tier == "thorough" {
 			to = 1 << 30
 			b = time.Duration(float64(budget) * lg.Share)
